@@ -32,7 +32,7 @@ def parse(log):
             m = re.match(r"^(C\d\d) exit=(\d+)\s*(.*)$", line)
             if m:
                 res["checks"][m.group(1)] = {"exit": int(m.group(2)), "first_violation": m.group(3).strip()}
-        elif sect and line.startswith("test result"):
+        elif sect and (line.startswith("test result") or (sect == "demo_with" and line.rstrip().endswith("FAILED"))):
             res[sect].append(line)
     return res
 
